@@ -718,7 +718,7 @@ fn input_shapes(prop: Prop, acc: &mut Acc) {
 /// Mid-range sweep: ordinary magnitudes, calendar positions, decimal scales, longer strings and
 /// collections — every unary kind on every value, every binary kind on every pair within a
 /// compatible group (plus the date/duration and collection/item cross groups).
-fn sweep_apps() -> Vec<App> {
+fn sweep_apps(thorough: bool) -> Vec<App> {
     let ints = pool::sweep_ints();
     let decs = pool::sweep_decimals();
     let floats = pool::sweep_floats();
@@ -757,6 +757,49 @@ fn sweep_apps() -> Vec<App> {
     for v in &printed {
         for op in ALL_UNOPS {
             apps.push(App::Un(op, v.clone()));
+        }
+    }
+    // calendar: every day around the century years 1900 / 2000 / 2100 / 2400 (thorough: every day
+    // of 1570..2770, three full 400-year cycles) under every date component; first / last second of
+    // each of those days for the small set
+    {
+        let day = 86_400i64;
+        let mut days: Vec<i64> = Vec::new();
+        if thorough {
+            days.extend(-146_097i64..(2 * 146_097));
+        } else {
+            for (y_start_days, span) in [(-27_029i64, 9 * 366), (9_496, 9 * 366), (46_020, 9 * 366), (155_593, 9 * 366)] {
+                days.extend(y_start_days..y_start_days + span);
+            }
+        }
+        for d in days {
+            for (secs, nanos) in [(d * day + 13 * 3600 + 14 * 60 + 15, 0u32), (d * day, 0), (d * day + day - 1, 999_999_999)] {
+                if !thorough && secs % day != 13 * 3600 + 14 * 60 + 15 && d % 7 != 0 {
+                    continue;
+                }
+                let v = RV::Dt(secs, nanos);
+                for op in [UnOp::Year, UnOp::Month, UnOp::Day, UnOp::Hour, UnOp::Minute, UnOp::Second] {
+                    apps.push(App::Un(op, v.clone()));
+                }
+            }
+        }
+    }
+    // case mapping and trimming: every scalar below U+2000, the alphabetic presentation forms and
+    // the cased supplementary blocks (thorough: every Unicode scalar), alone and between letters
+    {
+        let wanted = |u: u32| thorough || u < 0x2000 || (0x2000..0x2070).contains(&u) || (0x2100..0x2190).contains(&u) || (0x2c00..0x2e00).contains(&u) || (0xa640..0xa7ff).contains(&u) || (0xab30..0xabc0).contains(&u) || (0xfb00..0xfb18).contains(&u) || (0xff00..0xff60).contains(&u) || u == 0x3000 || u == 0xfeff || (0x10400..0x10500).contains(&u) || (0x10c80..0x10d00).contains(&u) || (0x118a0..0x118e0).contains(&u) || (0x16e40..0x16e80).contains(&u) || (0x1e900..0x1e950).contains(&u);
+        for u in 0x80u32..=0x10ffff {
+            if !wanted(u) {
+                continue;
+            }
+            if let Some(c) = char::from_u32(u) {
+                for text in [c.to_string(), format!("a{c}b"), format!("{c}a{c}")] {
+                    let v = RV::Str(text);
+                    for op in [UnOp::Upper, UnOp::Lower, UnOp::Trim] {
+                        apps.push(App::Un(op, v.clone()));
+                    }
+                }
+            }
         }
     }
     let pairs = |a: &Vec<RV>, b: &Vec<RV>, apps: &mut Vec<App>, cap: usize| {
@@ -1044,7 +1087,7 @@ pub fn run(prop: Prop, tier: Tier) -> i32 {
     }
 
     // mid-range sweep (round 1b)
-    let sweep = sweep_apps();
+    let sweep = sweep_apps(thorough);
     let (acc_s, _) = par_run(prop, &sweep, &lit_core, false, true);
     rep.bound("midrange_sweep_applications", sweep.len());
     rep.absorb(acc_s);
